@@ -99,7 +99,7 @@ def run(tier, seed):
     for k, s in enumerate(scripts):
         n = len(s["sc"])
         if n == 0 or n > 4 or len(s["src"]) > len(LEAD) - 10 or k % (5 if tier == "quick" else 1): continue
-        s2 = dict(s, sc=[dict(t="txt", s=LEAD)] + list(s["sc"]), src=LEAD + s["src"])
+        s2 = dict(s, sc=[dict(t="txt", s=LEAD, c=[], o="", n="")] + list(s["sc"]), src=LEAD + s["src"])
         for (a, b) in [(1, n + 1), (1, 2), (n, n + 1)]:
             for op in ("acc", "rej"):
                 cases.append((s2, a, b, op))
